@@ -12,6 +12,7 @@ package main
 
 import (
 	"fmt"
+	"sort"
 	"strconv"
 
 	"github.com/jamespfennell/gtfs"
@@ -97,6 +98,17 @@ func c08StopTimes(tier string) Harness {
 				st.set(r, "stop_sequence", strconv.FormatInt(n, 10))
 			}
 		}
+		// one row may have neither an arrival nor a departure time (legal for non-timepoints; the
+		// parser has no time to give it and leaves the row out): wherever that row lands, the other
+		// rows must come out the same
+		blankKey := ""
+		if k := c.Free("row_without_times", len(d)+1); k > 0 {
+			st := m.t("stop_times.txt")
+			st.set(k-1, "arrival_time", "")
+			st.set(k-1, "departure_time", "")
+			blankKey = fmt.Sprintf("/no-times-row=%d", k-1)
+			c.Witness("row_without_times")
+		}
 		perm := c.Perm("stop_times.row", len(d))
 		permuteRows(m.t("stop_times.txt"), perm)
 		identity := true
@@ -124,8 +136,79 @@ func c08StopTimes(tier string) Harness {
 		}
 		firstSeq, _ := m.t("stop_times.txt").get(0, "stop_sequence")
 		_ = firstSeq
-		c08Compare(c, m, "stop_times-row-order-irrelevant", fmt.Sprint(d)+seqRangeKey(m), !identity)
+		c08Compare(c, m, "stop_times-row-order-irrelevant", fmt.Sprint(d)+seqRangeKey(m)+blankKey, !identity)
 	}
+}
+
+// c08Sizes: a long trip (17..130 stop times) next to a short one, each block in ascending,
+// descending, rotated or once-swapped order, long first or short first or interleaved: sizes at
+// which slices are grown, pre-sized or shrunk.
+var c08LongLens = []int{9, 16, 17, 18, 20, 33, 40, 52, 65, 70, 122, 130}
+var c08Orders = []string{"ascending", "descending", "rotated", "one-swap"}
+
+func c08Arrange(rows [][]string, seqCol int, order int) [][]string {
+	out := append([][]string{}, rows...)
+	sort.SliceStable(out, func(i, j int) bool {
+		a, _ := strconv.ParseInt(out[i][seqCol], 10, 64)
+		b, _ := strconv.ParseInt(out[j][seqCol], 10, 64)
+		return a < b
+	})
+	switch order {
+	case 1:
+		for i, j := 0, len(out)-1; i < j; i, j = i+1, j-1 {
+			out[i], out[j] = out[j], out[i]
+		}
+	case 2:
+		out = append(out[1:], out[0])
+	case 3:
+		if len(out) >= 2 {
+			k := len(out) / 2
+			out[k-1], out[k] = out[k], out[k-1]
+		}
+	}
+	return out
+}
+
+func c08Sizes(c *Ctx) {
+	L := c08LongLens[c.Free("long_trip_rows", len(c08LongLens))]
+	S := 2 + c.Free("short_trip_rows", 2)
+	var d []int
+	for i := 0; i < L; i++ {
+		d = append(d, 0)
+	}
+	for i := 0; i < S; i++ {
+		d = append(d, 1)
+	}
+	n := baseCounts
+	n.trips = 2
+	m := genStaticFeedN(c, false, n, d, nil)
+	sameZone(m)
+	st := m.t("stop_times.txt")
+	seqCol := st.col("stop_sequence")
+	lo, so := c.Free("long_trip_order", len(c08Orders)), c.Free("short_trip_order", len(c08Orders))
+	long := c08Arrange(st.Rows[:L], seqCol, lo)
+	short := c08Arrange(st.Rows[L:], seqCol, so)
+	layout := c.Free("layout", 3)
+	var rows [][]string
+	switch layout {
+	case 0:
+		rows = append(append(rows, long...), short...)
+	case 1:
+		rows = append(append(rows, short...), long...)
+	case 2: // the short trip's rows spread through the long one
+		step := L / S
+		for i, r := range long {
+			rows = append(rows, r)
+			if (i+1)%step == 0 && len(short) > 0 {
+				rows = append(rows, short[0])
+				short = short[1:]
+			}
+		}
+		rows = append(rows, short...)
+	}
+	st.Rows = rows
+	c.Witness("long_trip_next_to_short_trip")
+	c08Compare(c, m, "stop_times-row-order-irrelevant", fmt.Sprintf("sizes %d+%d", L, S), lo+so+layout > 0)
 }
 
 // seqRangeKey identifies the set of sequence numbers of the feed (independent of row order).
@@ -198,7 +281,7 @@ func init() {
 	register(&Check{
 		ID:    "C08",
 		Level: "model_checking",
-		Rule: "feeds with rows distributed over 2-3 trips / shapes (5 distributions of <=6 rows; thorough 6 distributions of <=8 rows), sequence numbers 2,10,100,0,33,... (text order != numeric order), also shifted to straddle 2^31, spread beyond 2^32 and multiplied; ALL permutations of stop_times.txt rows and of shapes.txt rows; ALL permutations of the rows of agency, routes, stops, transfers, calendar, calendar_dates, trips, frequencies (3-5 rows each); " +
+		Rule: "feeds with rows distributed over 2-3 trips / shapes (5 distributions of <=6 rows; thorough 6 distributions of <=8 rows), sequence numbers 2,10,100,0,33,... (text order != numeric order), also shifted to straddle 2^31, spread beyond 2^32 and multiplied; ALL permutations of stop_times.txt rows (optionally one row without any time) and of shapes.txt rows; a trip of 9..130 stop times next to one of 2-3, each in ascending / descending / rotated / once-swapped order, long first, short first or interleaved; ALL permutations of the rows of agency, routes, stops, transfers, calendar, calendar_dates, trips, frequencies (3-5 rows each); " +
 			"non-trivial = distinct archives whose rows are not in identity order; oracles = reference interpretation + relation (feed up to row order -> dump)",
 		Assumptions: []string{"all agencies share one zone in this check (the first agency legitimately determines the zone of every date)", "reference targets are named by id so that a permuted collection compares independent of indices"},
 		Scenarios: func(tier string) []*Scenario {
@@ -207,7 +290,7 @@ func init() {
 			if tier == "thorough" {
 				big.agencies, big.routes, big.stops, big.transfers, big.calendars, big.calendarDates, big.trips, big.frequencies = 4, 4, 5, 4, 4, 5, 4, 5
 			}
-			s := []*Scenario{{Name: "stop_times-permutations", Bound: -1, Run: c08StopTimes(tier)}, {Name: "shapes-permutations", Bound: -1, Run: c08Shapes(tier)}}
+			s := []*Scenario{{Name: "stop_times-permutations", Bound: -1, Run: c08StopTimes(tier)}, {Name: "shapes-permutations", Bound: -1, Run: c08Shapes(tier)}, {Name: "stop_times-sizes", Bound: -1, Run: c08Sizes}}
 			for _, f := range []string{"agency.txt", "routes.txt", "stops.txt", "transfers.txt", "calendar.txt", "calendar_dates.txt", "trips.txt", "frequencies.txt"} {
 				s = append(s, &Scenario{Name: "file-order/" + f, Bound: -1, Run: c08OtherFile(f, big)})
 			}
